@@ -1,6 +1,7 @@
 import H2V.Lemmas.ConnResetPHist
 import H2V.Lemmas.ConnCtlPGoAwayAll
 import H2V.Lemmas.ConnNoPanicPReach
+import H2V.Lemmas.ConnFlowPWire
 /-
   C08 (no panic) — connection layer, part 1: histories with per-call guarantees.
   `Hist P s t`: `t` is reached from `s` by a sequence of stream-layer operations (`ConnResetP.Op`), the
@@ -66,6 +67,7 @@ theorem Hist.inv {P : Streams → Op → Prop} {I : Streams → Prop} (hI : ∀ 
 def WireOK : Frame.Frame → Prop
   | .windowUpdate _ inc => inc ≤ 2147483647
   | .data _ payload _ pad => FrameLenOK payload pad
+  | .settings _ vals => ConnFlowP.SettingsOk vals
   | _ => True
 
 /-- **the guarantees of the connection layer** at each call it makes on `streams`; `False` = the connection
@@ -82,8 +84,8 @@ def ConnP (s : Streams) : Op → Prop
   | .handleError e => ∀ id r, e ≠ .reset id r .remote
   | .recvGoAwayFrame _ _ _ => True
   | .innerSendReset _ _ => True
-  | .setTargetConnectionWindow _ => True
-  | .applyRemoteSettings _ _ => True
+  | .setTargetConnectionWindow t => t ≤ 2147483647
+  | .applyRemoteSettings vals _ => ConnFlowP.SettingsOk vals
   | .applyLocalSettingsFrame _ => True
   | .pollComplete _ _ _ _ => True
   | .pollSendPendingRefusal _ _ _ _ => True
@@ -256,17 +258,24 @@ structure RdOK (c : Conn) : Prop where
   max : c.codec.r.maxFrameLen ≤ 16777215
   need : ∀ n, c.codec.r.need = some n → n ≤ 16777224
   loc : ∀ v m, LocIn c v → ConnCtlP.getS v 5 = some m → m ≤ 16777215
+  /-- the peer's SETTINGS waiting for their ACK came through the decoder (INITIAL_WINDOW_SIZE ≤ 2^31-1) -/
+  rem : ∀ v, c.settings.remote = some v → ConnFlowP.SettingsOk v
 
-/-- no new local SETTINGS come into flight -/
-def LocLe (c c' : Conn) : Prop := ∀ v, LocIn c' v → LocIn c v
+/-- no new local SETTINGS come into flight, no new SETTINGS of the peer are remembered -/
+def LocLe (c c' : Conn) : Prop :=
+  (∀ v, LocIn c' v → LocIn c v) ∧ (∀ v, c'.settings.remote = some v → c.settings.remote = some v)
 
-theorem LocLe.refl (c : Conn) : LocLe c c := fun _ h => h
-theorem LocLe.trans {a b c : Conn} (h1 : LocLe a b) (h2 : LocLe b c) : LocLe a c := fun v h => h1 v (h2 v h)
-theorem LocLe.of_eq {c c' : Conn} (h : c'.settings.loc = c.settings.loc) : LocLe c c' := by
+theorem LocLe.refl (c : Conn) : LocLe c c := ⟨fun _ h => h, fun _ h => h⟩
+theorem LocLe.trans {a b c : Conn} (h1 : LocLe a b) (h2 : LocLe b c) : LocLe a c :=
+  ⟨fun v h => h1.1 v (h2.1 v h), fun v h => h1.2 v (h2.2 v h)⟩
+theorem LocLe.of_eq {c c' : Conn} (h : c'.settings.loc = c.settings.loc) (hr : c'.settings.remote = c.settings.remote) :
+    LocLe c c' := by
+  refine ⟨?_, fun v hv => by rw [← hr]; exact hv⟩
   intro v hv; unfold LocIn at *; rw [← h]; exact hv
 
 theorem RdOK.keep {c c' : Conn} (h : RdOK c) (hr : c'.codec.r = c.codec.r) (hl : LocLe c c') : RdOK c' :=
-  ⟨by rw [hr]; exact h.max, by rw [hr]; exact h.need, fun v m hv hm => h.loc v m (hl v hv) hm⟩
+  ⟨by rw [hr]; exact h.max, by rw [hr]; exact h.need, fun v m hv hm => h.loc v m (hl.1 v hv) hm,
+    fun v hv => h.rem v (hl.2 v hv)⟩
 
 /-- the connection invariant -/
 structure ConnOK (c : Conn) : Prop where
@@ -327,7 +336,7 @@ theorem ConnOK.keep {c c' : Conn} (hc : ConnOK c) (h : Keep15 c c') (hp : c'.pin
 /-- a connection that differs only in parts the invariant does not look at -/
 theorem ConnOK.congr {c c' : Conn} (hc : ConnOK c) (hg : c'.goAway = c.goAway) (hs : c'.streams = c.streams)
     (hp : c'.pingPong.pendingPing = c.pingPong.pendingPing) (hr : c'.codec.r = c.codec.r)
-    (hl : c'.settings.loc = c.settings.loc) : ConnOK c' :=
-  hc.keep (Keep15.of_view hg (by rw [hs])) hp hr (.of_eq hl)
+    (hl : c'.settings.loc = c.settings.loc) (hrem : c'.settings.remote = c.settings.remote) : ConnOK c' :=
+  hc.keep (Keep15.of_view hg (by rw [hs])) hp hr (.of_eq hl hrem)
 
 end H2V.Lemmas.ConnNoPanicP
